@@ -471,6 +471,57 @@ def history_ops(fx, rng, ops, keys, h, n, spare):
     return out
 
 
+SCALES = (255, 256, 257, 436, 437, 440, 1000, 3000)
+
+
+def run_scale(ctx, fx, count, tag, nkeys=1, seed=None):
+    """The number of signatures of an authorization at scale: a file with `count` signatures (own
+    keys at the first / a middle position, a pool of other keys elsewhere) is loaded, goes through the
+    save / load round trip, gets `nkeys` more signatures from consecutive `signapp key` runs, and the
+    resulting object is authorized against devices whose threshold sits at the first, a middle, the
+    last signature, and never; last, `adm_ledger authorize_signer` on the file (threshold at the last)."""
+    import random
+    seed = ctx.seed if seed is None else seed
+    rng = random.Random("C17-scale:%d:%d:%d" % (seed, count, nkeys))     # own stream: replayable from (seed, count)
+    fx = Fixture(rng)
+    hin = make_hash("lower", rng)
+    h, n = hin["raw"], mid_value(rng)
+    pool = fx.keys[:10]
+    u1, umid = fx.keys[10], fx.keys[11]
+    tkeys = [sa.Key(rng) for _ in range(nkeys)]
+    mid = max(2, count // 2) if count >= 3 else None
+    sigs = []
+    for pos in range(1, count + 1):
+        key = u1 if pos == 1 else umid if pos == mid else pool[rng.randrange(len(pool))]
+        sigs.append(make_sig(key, "valid" if key in (u1, umid) or rng.random() < 0.8 else "wrongdigest", h, n, rng))
+    total = count + nkeys
+
+    def dev(auth, thr):
+        return {"authorizers": [k.pub.hex() for k in auth], "threshold": thr, "cur": rng.randrange(0, n)}
+    spare = fx.keys[12:14]
+    hist = []
+    if count >= 1:
+        hist.append({"op": "auth", "device": dev([u1] + spare[:1], 1), "nofresh": True})                # first
+    if mid:
+        hist.append({"op": "auth", "device": dev([u1, umid], 2), "nofresh": True})                      # middle
+    hist.append({"op": "auth", "device": dev([tkeys[-1]] + ([u1] if count >= 1 else []),
+                                             2 if count >= 1 else 1), "nofresh": True})                 # last
+    hist.append({"op": "auth", "device": dev([tkeys[-1], spare[1]], 2), "nofresh": True})               # never
+    hist.append({"op": "save"})
+    recipe = {"src": "file", "hash": hash_rec(hin), "iter": {"form": "int", "val": n, "s": ""}, "sigs": sigs,
+              "tools": [{"op": "key", "key": k.raw.hex(),
+                         "shape": {"style": fx.next_style(), "seed": rng.getrandbits(30)}} for k in tkeys],
+              "roundtrip": True, "history": hist,
+              "device": dev([tkeys[-1]], 1), "via": "admin",
+              "admin_shape": {"style": fx.next_style(), "seed": rng.getrandbits(30)}}
+    evs, info = sa.execute(recipe, ctx.scratch, tag)
+    desc = {"hcls": "lower", "icls": "int_mid", "m": count, "total": total, "mut": "none", "kind": "?",
+            "tool": "key", "cur": "below", "k": total, "src": "scale", "scale": count,
+            "steps": [["key", "none", "exists", "absent"]] * nkeys}
+    return {"ev": evs, "desc": desc, "exc": info["exc"],
+            "input": {"regen": {"scenario": "scale", "seed": seed, "count": count, "nkeys": nkeys}}}
+
+
 def run_admin_twice(ctx, fx, tag):
     """do_authorize_signer twice in one process on the same file: second run against the same device
     (answers SIGVER with an error) or a new one; the file on disk is what it was."""
@@ -502,6 +553,9 @@ def run_admin_twice(ctx, fx, tag):
 def signature(clause, t, ev=None):
     """stable abstract signature: the clause and the classes of the parts it depends on"""
     d = t["desc"]
+    if d.get("src") == "scale":
+        return "%s|signature-count=%d%s" % (clause, d["scale"], " signapp-key-runs=%d" % len(d["steps"])
+                                            if len(d["steps"]) > 1 else "")
     if ev is not None and ev.get("k") in ("sign", "pubkey"):
         st = t.get("failing_step")
         if st is not None:
@@ -886,10 +940,31 @@ def judge(res, traces, shards):
                           v["clause"], at, evk, label, json.dumps(tt["desc"], sort_keys=True),
                           json.dumps(core._jsonable(brief(tt.get("input"))), sort_keys=True)[:700]),
                       {"kind": label, "desc": tt["desc"], "input": tt.get("input"), "verdict": v,
-                       "events": t["ev"] if len(t["ev"]) <= 40 else t["ev"][max(0, at - 2):at + 1]})
+                       "events": None if label == "scale" else
+                       t["ev"] if len(t["ev"]) <= 40 else t["ev"][max(0, at - 2):at + 1]})
     res.add_validation(stats, accepted)
     res.coverage["trace_spec_selftest"] = selftest
     return verdicts
+
+
+def generate_behaviours(ctx):
+    """All complete behaviours of the model. Quick tier: 4 TLC workers (every behaviour is one println
+    of one string, which is atomic); every printed line must parse, else -- and in the thorough tier
+    always -- the single-worker run of the README. Sorted, so that seeded selection does not depend on
+    the order in which workers reached the terminal states."""
+    out, r = None, None
+    if ctx.quick:
+        r = tlc.check("GenSignerAuth", "Gen_SignerAuth.cfg", workers=4)
+        if not r.violated:
+            lines = [ln for ln in r.out.splitlines() if '"B ' in ln]
+            try:
+                out = [json.loads(json.loads(ln)[2:]) for ln in lines]
+            except ValueError:
+                out = None
+    if out is None:
+        out, r = tlc.generate("GenSignerAuth", "Gen_SignerAuth.cfg")
+    out.sort(key=lambda b: json.dumps(b, sort_keys=True))
+    return out, r
 
 
 def run(ctx):
@@ -928,7 +1003,7 @@ def run(ctx):
         # tier "every action taken" is read off the generated behaviours below
         f_mc = ex.submit(tlc.check, "SignerAuth", "MC_SignerAuth.cfg", coverage=not ctx.quick, workers=4)
         f_neg = ex.submit(tlc.run, "SignerAuth", "Neg_SignerAuth.cfg", workers=1)
-        f_gen = ex.submit(tlc.generate, "GenSignerAuth", "Gen_SignerAuth.cfg")
+        f_gen = ex.submit(generate_behaviours, ctx)
         r, rn = f_mc.result(), f_neg.result()
         behaviours, rg = f_gen.result()
     if r.violated:
@@ -1016,6 +1091,16 @@ def run(ctx):
     atraces = [run_admin_twice(ctx, fx, "a%d" % i) for i in range(ctx.pick(40, 600))]
     res.coverage["admin_twice_runs"] = len(atraces)
     lap("admin_twice")
+    # 4c. the number of signatures at scale
+    scales = ctx.pick(SCALES[:-1], SCALES)
+    straces = [run_scale(ctx, fx, c, "s%d" % c) for c in scales]
+    if not ctx.quick:   # one long run of consecutive `signapp key` invocations on one output file
+        straces.append(run_scale(ctx, fx, 150, "slong", nkeys=300))
+    for t in straces:
+        t["label"] = "scale"
+    res.coverage["signature_counts_at_scale"] = [t["desc"]["scale"] for t in straces]
+    res.coverage["longest_signapp_key_run"] = max(len(t["desc"]["steps"]) for t in straces)
+    lap("scale")
     # 5. iteration sweep
     if ctx.quick:
         lo = ctx.rng.randrange(0, 65536 - 1024)
@@ -1032,7 +1117,7 @@ def run(ctx):
         t["label"] = "iteration-sweep"
     for t in atraces:
         t["label"] = "admin-twice"
-    judge(res, traces + rtraces + atraces + sw + corruptions(traces), ctx.pick(3, 8))
+    judge(res, traces + rtraces + atraces + straces + sw + corruptions(traces), ctx.pick(3, 8))
     lap("validate")
     res.coverage["iterations_swept"] = sum(1 for t in sw for e in t["ev"] if e["k"] == "build")
     res.coverage["iterations_swept_authorised"] = sum(1 for t in sw for e in t["ev"]
@@ -1054,7 +1139,11 @@ def replay(ctx, path):
         print(err)
         return 2
     inp = rp.get("input") or {}
-    if "src" in inp:
+    if "regen" in inp:
+        g = inp["regen"]
+        t = run_scale(ctx, None, g["count"], "replay", nkeys=g["nkeys"], seed=g["seed"])
+        evs, info = t["ev"], {"scenario": g}
+    elif "src" in inp:
         evs, info = sa.execute(inp, ctx.scratch, "replay")
     else:       # an iteration-sweep entry: {hash, n, ...}
         it = sweep_iter(inp["form"], inp["n"])
@@ -1065,5 +1154,5 @@ def replay(ctx, path):
     v, _ = tlc.validate("TraceSignerAuth", "Trace_SignerAuth.cfg", [{"id": 1, "ev": evs}])
     print(json.dumps({"desc": rp.get("desc"), "input": inp, "info": info,
                       "events": [e["k"] if e["k"] != "apdu" else "apdu:" + bytes(e["apdu"]).hex()
-                                 for e in evs], "verdict": v[1]}, indent=1))
+                                 for e in evs][:60], "verdict": v[1]}, indent=1))
     return 0 if v[1]["ok"] else 1
